@@ -282,6 +282,7 @@ pub fn run(case: &Val) -> Val {
                 let d = PathBuf::from(dst);
                 if fs::symlink_metadata(&d).is_err() {
                     if fs::create_dir_all(&d).is_ok() && fs::write(d.join("keep"), b"obst").is_ok() {
+                        vh::util::vary_mtime(&d);
                         st.blocked = Some(d);
                     }
                 }
@@ -354,6 +355,7 @@ pub fn run(case: &Val) -> Val {
             2 => {
                 fs::create_dir_all(&top).expect("obstacle dir");
                 fs::write(Path::new(&top).join("keep"), b"obst").expect("obstacle file");
+                vh::util::vary_mtime(Path::new(&top));
                 out.push(entry(false, &[], &root));
             }
             3 => {
@@ -375,6 +377,7 @@ pub fn run(case: &Val) -> Val {
                     std::os::unix::fs::symlink("gone-volume/nowhere", &d).expect("symlink");
                 } else {
                     fs::write(&d, b"obst").expect("obstacle file");
+                    vh::util::vary_mtime(&d);
                 }
                 slot_obst = Some(d);
                 out.push(entry(false, &[], &root));
